@@ -26,7 +26,12 @@ def load(features=()):
 def executor(unwind=8, str_cap=8, features=(), timeout_ms=60000):
     mir, src, hv = load(features)
     ex = Executor(mir, src, unwind=unwind, str_cap=str_cap, timeout_ms=timeout_ms)
-    ex._build_fnkeys()
+    k = ('fnkeys',) + tuple(features)
+    if k not in _cache:
+        ex._build_fnkeys()
+        ex.closure_fn('{closure@none}')
+        _cache[k] = (ex._fnkeys, ex._free, ex._closures)
+    ex._fnkeys, ex._free, ex._closures = _cache[k]
     return ex
 
 
